@@ -912,6 +912,10 @@ pub(crate) fn is_valid_duration(
     for v in set {
         // FiniteF64 must always be finite.
         // a. If 𝔽(v) is not finite, return false.
+        // The fields of a duration are integers.
+        if v.as_inner().fract() != 0.0 {
+            return false;
+        }
         // b. If v < 0 and sign > 0, return false.
         if v < 0f64 && sign == Sign::Positive {
             return false;
